@@ -17,8 +17,6 @@
 //@rule WILDPARAM :: \(self, _: MonotonicTime\) :: (self, _now: MonotonicTime) :: R14 wildcard parameter unsupported by Verus
 //@rule INTOADDR :: address: impl Into<Address<M>> :: address: A :: R14 impl-Trait argument as a named generic
 //@rule GENERICA :: <M, F, T, S>\( :: <M, F, T, S, A: Into<Address<M>>>( :: R14
-//@rule RELEASE2 :: return Err\(SchedulingError::InvalidScheduledTime\); :: { unlock_queue(&mut self.scheduler_queue, &mut self.time); return Err(SchedulingError::InvalidScheduledTime); } :: R13' the implicit drop of the guard at this `return` made explicit
-//@rule RELEASE3 :: \n\n        Ok\((\(\)|event_key)\)\n    \}$ :: \n\n        unlock_queue(&mut self.scheduler_queue, &mut self.time); Ok(\1)\n    } :: R13' the implicit drop of the guard at the end of the function made explicit
 //@pyrule PUBFIELDS :: pub_fields() :: R7
 //@pyrule RET :: name_ret(res) :: R17
 //@pyrule CTOR :: abstract_action_ctor() :: R8 construction of the async event-sending future dropped; period / key expressions kept
@@ -67,14 +65,14 @@ impl AtomicTimeReader {
 // and the stepping thread may have advanced the time since this thread last looked at it
 #[verifier::external_body]
 fn lock_queue(q: &mut SchedulerQueue, time: &mut AtomicTimeReader)
-    requires !old(q).locked(),
+    requires !old(q).locked(),                //@ C08 #lock-not-taken-twice
     ensures final(q).locked(), final(time).val() >= old(time).val(), queue_inv(final(q).view(), final(time).val()),
 { }
 // release: the invariant must hold again
 #[verifier::external_body]
 fn unlock_queue(q: &mut SchedulerQueue, time: &AtomicTimeReader)
     requires
-        old(q).locked(),
+        old(q).locked(),                      //@ C08 #unlock-only-when-held
         queue_inv(old(q).view(), time.val()),      //@ C08,C01 #invariant-at-release
     ensures !final(q).locked(),
 { }
@@ -143,7 +141,7 @@ pub open spec fn accepted(q0: Seq<Entry>, q1: Seq<Entry>, e: Entry) -> bool {
 }
 pub proof fn lemma_insert_keeps_inv(q0: Seq<Entry>, q1: Seq<Entry>, e: Entry, now: u64)
     requires
-        queue_inv(q0, now), accepted(q0, q1, e), sorted(q1),
+        queue_inv(q0, now), accepted(q0, q1, e), sorted(q1),   //@ C08,C01 #insertion-keeps-the-invariant
         e.time > now,                   //@ C08,C01 #deadline-strictly-in-the-future
         e.period != Some(0nat),         //@ C08 #period-non-zero
     ensures queue_inv(q1, now)
@@ -165,7 +163,7 @@ impl GlobalScheduler {
     }
 //@end
 
-//@item src=nexosim/src/simulation/scheduler.rs kind=fn name=schedule_from within=`impl GlobalScheduler` rules=PUBCRATE,MUTSELF,LOCK,GUARDUSE,RELEASE2,RELEASE3,RET canary=1
+//@item src=nexosim/src/simulation/scheduler.rs kind=fn name=schedule_from within=`impl GlobalScheduler` rules=PUBCRATE,MUTSELF,LOCK,GUARDUSE,RET canary=1
     pub fn schedule_from(
         &mut self,
         deadline: impl Deadline,
@@ -176,7 +174,8 @@ impl GlobalScheduler {
         requires
             !old(self).scheduler_queue.locked(),
         ensures
-            !final(self).scheduler_queue.locked(),                                              //@ C08 #lock-released-at-exit
+            // the guard is dropped at every exit of the function (Rust): if the lock is held there, the invariant must hold
+            final(self).scheduler_queue.locked() ==> queue_inv(final(self).scheduler_queue.view(), final(self).time.val()),   //@ C08,C01 #invariant-at-release
             final(self).time.val() >= old(self).time.val(),
         //@]
     {
@@ -200,7 +199,7 @@ impl GlobalScheduler {
         let now = self.time();
         let time = deadline.into_time(now);
         if now >= time {
-            { unlock_queue(&mut self.scheduler_queue, &mut self.time); return Err(SchedulingError::InvalidScheduledTime); }
+            return Err(SchedulingError::InvalidScheduledTime);
         }
 
         let ghost q0 = self.scheduler_queue.view();   //@
@@ -211,11 +210,11 @@ impl GlobalScheduler {
         }
         //@]
 
-        unlock_queue(&mut self.scheduler_queue, &mut self.time); Ok(())
+        Ok(())
     }
 //@end
 
-//@item src=nexosim/src/simulation/scheduler.rs kind=fn name=schedule_event_from within=`impl GlobalScheduler` rules=PUBCRATE,MUTSELF,INTOADDR,GENERICA,CTOR,LOCK,GUARDUSE,RELEASE2,RELEASE3,RET
+//@item src=nexosim/src/simulation/scheduler.rs kind=fn name=schedule_event_from within=`impl GlobalScheduler` rules=PUBCRATE,MUTSELF,INTOADDR,GENERICA,CTOR,LOCK,GUARDUSE,RET
     pub fn schedule_event_from<M, F, T, S, A: Into<Address<M>>>(
         &mut self,
         deadline: impl Deadline,
@@ -233,7 +232,8 @@ impl GlobalScheduler {
         requires
             !old(self).scheduler_queue.locked(),
         ensures
-            !final(self).scheduler_queue.locked(),                                              //@ C08 #lock-released-at-exit
+            // the guard is dropped at every exit of the function (Rust): if the lock is held there, the invariant must hold
+            final(self).scheduler_queue.locked() ==> queue_inv(final(self).scheduler_queue.view(), final(self).time.val()),   //@ C08,C01 #invariant-at-release
             final(self).time.val() >= old(self).time.val(),
         //@]
     {
@@ -245,7 +245,7 @@ impl GlobalScheduler {
         let now = self.time();
         let time = deadline.into_time(now);
         if now >= time {
-            { unlock_queue(&mut self.scheduler_queue, &mut self.time); return Err(SchedulingError::InvalidScheduledTime); }
+            return Err(SchedulingError::InvalidScheduledTime);
         }
 
         let ghost q0 = self.scheduler_queue.view();   //@
@@ -256,11 +256,11 @@ impl GlobalScheduler {
         }
         //@]
 
-        unlock_queue(&mut self.scheduler_queue, &mut self.time); Ok(())
+        Ok(())
     }
 //@end
 
-//@item src=nexosim/src/simulation/scheduler.rs kind=fn name=schedule_keyed_event_from within=`impl GlobalScheduler` rules=PUBCRATE,MUTSELF,INTOADDR,GENERICA,CTOR,LOCK,GUARDUSE,RELEASE2,RELEASE3,RET
+//@item src=nexosim/src/simulation/scheduler.rs kind=fn name=schedule_keyed_event_from within=`impl GlobalScheduler` rules=PUBCRATE,MUTSELF,INTOADDR,GENERICA,CTOR,LOCK,GUARDUSE,RET
     pub fn schedule_keyed_event_from<M, F, T, S, A: Into<Address<M>>>(
         &mut self,
         deadline: impl Deadline,
@@ -278,7 +278,8 @@ impl GlobalScheduler {
         requires
             !old(self).scheduler_queue.locked(),
         ensures
-            !final(self).scheduler_queue.locked(),                                              //@ C08 #lock-released-at-exit
+            // the guard is dropped at every exit of the function (Rust): if the lock is held there, the invariant must hold
+            final(self).scheduler_queue.locked() ==> queue_inv(final(self).scheduler_queue.view(), final(self).time.val()),   //@ C08,C01 #invariant-at-release
             final(self).time.val() >= old(self).time.val(),
         //@]
     {
@@ -291,7 +292,7 @@ impl GlobalScheduler {
         let now = self.time();
         let time = deadline.into_time(now);
         if now >= time {
-            { unlock_queue(&mut self.scheduler_queue, &mut self.time); return Err(SchedulingError::InvalidScheduledTime); }
+            return Err(SchedulingError::InvalidScheduledTime);
         }
 
         let ghost q0 = self.scheduler_queue.view();   //@
@@ -302,11 +303,11 @@ impl GlobalScheduler {
         }
         //@]
 
-        unlock_queue(&mut self.scheduler_queue, &mut self.time); Ok(event_key)
+        Ok(event_key)
     }
 //@end
 
-//@item src=nexosim/src/simulation/scheduler.rs kind=fn name=schedule_periodic_event_from within=`impl GlobalScheduler` rules=PUBCRATE,MUTSELF,INTOADDR,GENERICA,CTOR,LOCK,GUARDUSE,RELEASE2,RELEASE3,RET
+//@item src=nexosim/src/simulation/scheduler.rs kind=fn name=schedule_periodic_event_from within=`impl GlobalScheduler` rules=PUBCRATE,MUTSELF,INTOADDR,GENERICA,CTOR,LOCK,GUARDUSE,RET
     pub fn schedule_periodic_event_from<M, F, T, S, A: Into<Address<M>>>(
         &mut self,
         deadline: impl Deadline,
@@ -325,7 +326,8 @@ impl GlobalScheduler {
         requires
             !old(self).scheduler_queue.locked(),
         ensures
-            !final(self).scheduler_queue.locked(),                                              //@ C08 #lock-released-at-exit
+            // the guard is dropped at every exit of the function (Rust): if the lock is held there, the invariant must hold
+            final(self).scheduler_queue.locked() ==> queue_inv(final(self).scheduler_queue.view(), final(self).time.val()),   //@ C08,C01 #invariant-at-release
             final(self).time.val() >= old(self).time.val(),
         //@]
     {
@@ -340,7 +342,7 @@ impl GlobalScheduler {
         let now = self.time();
         let time = deadline.into_time(now);
         if now >= time {
-            { unlock_queue(&mut self.scheduler_queue, &mut self.time); return Err(SchedulingError::InvalidScheduledTime); }
+            return Err(SchedulingError::InvalidScheduledTime);
         }
 
         let ghost q0 = self.scheduler_queue.view();   //@
@@ -351,11 +353,11 @@ impl GlobalScheduler {
         }
         //@]
 
-        unlock_queue(&mut self.scheduler_queue, &mut self.time); Ok(())
+        Ok(())
     }
 //@end
 
-//@item src=nexosim/src/simulation/scheduler.rs kind=fn name=schedule_keyed_periodic_event_from within=`impl GlobalScheduler` rules=PUBCRATE,MUTSELF,INTOADDR,GENERICA,CTOR,LOCK,GUARDUSE,RELEASE2,RELEASE3,RET
+//@item src=nexosim/src/simulation/scheduler.rs kind=fn name=schedule_keyed_periodic_event_from within=`impl GlobalScheduler` rules=PUBCRATE,MUTSELF,INTOADDR,GENERICA,CTOR,LOCK,GUARDUSE,RET
     pub fn schedule_keyed_periodic_event_from<M, F, T, S, A: Into<Address<M>>>(
         &mut self,
         deadline: impl Deadline,
@@ -374,7 +376,8 @@ impl GlobalScheduler {
         requires
             !old(self).scheduler_queue.locked(),
         ensures
-            !final(self).scheduler_queue.locked(),                                              //@ C08 #lock-released-at-exit
+            // the guard is dropped at every exit of the function (Rust): if the lock is held there, the invariant must hold
+            final(self).scheduler_queue.locked() ==> queue_inv(final(self).scheduler_queue.view(), final(self).time.val()),   //@ C08,C01 #invariant-at-release
             final(self).time.val() >= old(self).time.val(),
         //@]
     {
@@ -390,7 +393,7 @@ impl GlobalScheduler {
         let now = self.time();
         let time = deadline.into_time(now);
         if now >= time {
-            { unlock_queue(&mut self.scheduler_queue, &mut self.time); return Err(SchedulingError::InvalidScheduledTime); }
+            return Err(SchedulingError::InvalidScheduledTime);
         }
 
         let ghost q0 = self.scheduler_queue.view();   //@
@@ -401,7 +404,7 @@ impl GlobalScheduler {
         }
         //@]
 
-        unlock_queue(&mut self.scheduler_queue, &mut self.time); Ok(event_key)
+        Ok(event_key)
     }
 //@end
 
